@@ -29,6 +29,16 @@ import (
 
 const kernelStateEnv = "LCV_SIMK_STATE"
 
+// ChrootStub stands in for chroot(1) (configuration key CHROOT_EXEC) in process-level steps: it
+// succeeds iff it was started the way the manual says `layercake chroot <layer>` starts the chroot
+// program -- one argument, the layer's build directory, and LAYERCAKE_LAYER=<layer> in the
+// environment (the harness passes what it expects in LCV_EXPECT_*).
+const ChrootStub = ScratchBase + "/.chroot-stub"
+
+const chrootStubText = "#!/bin/sh\n[ $# -eq 1 ] && [ \"$1\" = \"$LCV_EXPECT_DIR\" ] && [ \"$LAYERCAKE_LAYER\" = \"$LCV_EXPECT_LAYER\" ]\n"
+
+func writeChrootStub() error { return os.WriteFile(ChrootStub, []byte(chrootStubText), 0755) }
+
 // CLIAvailable: the project tree the harness was built from has the external-kernel hook and
 // the binary is there.  (Without the hook the binary would issue real mount(2) calls.)
 func CLIAvailable() bool {
@@ -89,6 +99,12 @@ func cliArgv(in Input, st StepIn, salt int) []string {
 		}
 	case "shake":
 		cmd = []string{"shake"}
+	case "chroot":
+		// only with a configuration file: it names the stand-in for chroot(1) (ChrootStub)
+		if in.Conf == "" {
+			return nil
+		}
+		cmd = []string{"chroot", c.A}
 	case "list":
 		cmd = []string{"list"}
 	default:
@@ -304,6 +320,9 @@ func runStepCLI(in Input, k *simk.Kernel, st StepIn, salt int) (obs StepObs) {
 	env = append(env, "HOME="+scratch, "LAYERCAKE_VERIF_KERNEL="+helper, kernelStateEnv+"="+state, "LAYERCAKE_VERIF_LOG="+logfile)
 	if st.Env.Fault != "" {
 		env = append(env, fmt.Sprintf("LAYERCAKE_VERIF_FAULT=%s:%d", st.Env.Fault, st.Env.K))
+	}
+	if st.Cmd.Kind == "chroot" {
+		env = append(env, "LCV_EXPECT_DIR="+cfg.Layers+"/"+st.Cmd.A+"/"+cfg.BuildRoot, "LCV_EXPECT_LAYER="+st.Cmd.A)
 	}
 	cmd.Env = env
 	cmd.Dir = "/"
